@@ -112,7 +112,8 @@ def check(tier="quick", seed=0):
                 try:
                     d1 = json.loads(p.stdout)
                 except Exception:
-                    return {"name": "ground.pyc_roundtrip", "error": "worker under %s failed: %s" % (hx, p.stderr[-400:]), "obligations": [], "violations": []}
+                    from ground.common import worker_failed
+                    return worker_failed("ground.pyc_roundtrip", hx, p.stderr, repo)
                 d["host"] = d1["host"]
                 d["cases"] += d1["cases"]
             host = d["host"]
